@@ -15,6 +15,6 @@ CONFIG = {
                     "every knock is acknowledged within its 5 s window (knock timeouts and gRPC reconnect back-off are not modelled)",
                     "yamux FIFO stream delivery; main-connection streams are opened only while no handshake is in progress"],
     "timeout": {"quick": 600, "thorough": 3000},
-    "level_text": "Lean theorems over a transition system of the multiplexed broker's knock / AcceptKnock / ack / Dial handshake for both roles of the accepting side (GRPCServerMuxer with its main accept loop and knockCh; GRPCClientMuxer with blocked listeners), for all schedules of Accept's statements, the knock loop, the handshake messages, the accept loop and main-connection streams, any number of ids, accept-first and dial-first: every stream dialled for n is handed to listener n, never to the main listener or another id's (routed_to_its_listener), the main accept loop never returns a fatal error (main_survives), every completed handshake is acknowledged without error (first_call_ok), deliveries only grow (earlier connections untouched). Witness theorems reproduce the former defect D4 in both roles when the listener is registered after the knock loop starts. The statement order in GRPCBroker.Accept and the token-channel capacities are re-extracted each run; ~60 real multiplexed sessions per run, steered with the verifhook delay between the two statements, are compared with the model's scheduled run. Also: the hand-off of a knocked stream to its listener is a blocking send — with it, a stream that arrives while the listener is registered but not yet in Accept() simply waits (fact handoffBlocks, event xAcceptUnparked, witness nonblocking_handoff_witness: a fallback to the default listener serves the brokered stream from the main listener); late-serve scenario (Accept now, Serve 400 ms later). Fifth round: knocksExpire also requires that the dialler's wait for the ack in knock is one select with exactly the ack arm and the timer arm and that nothing else in knock receives from a channel. Sixth round: C08.reaccept — an ID accepted again after its first brokered server was shut down, both roles.",
+    "level_text": "Lean theorems over a transition system of the multiplexed broker's knock / AcceptKnock / ack / Dial handshake for both roles of the accepting side (GRPCServerMuxer with its main accept loop and knockCh; GRPCClientMuxer with blocked listeners), for all schedules of Accept's statements, the knock loop, the handshake messages, the accept loop and main-connection streams, any number of ids, accept-first and dial-first: every stream dialled for n is handed to listener n, never to the main listener or another id's (routed_to_its_listener), the main accept loop never returns a fatal error (main_survives), every completed handshake is acknowledged without error (first_call_ok), deliveries only grow (earlier connections untouched). Witness theorems reproduce the former defect D4 in both roles when the listener is registered after the knock loop starts. The statement order in GRPCBroker.Accept and the token-channel capacities are re-extracted each run; ~60 real multiplexed sessions per run, steered with the verifhook delay between the two statements, are compared with the model's scheduled run. Also: the hand-off of a knocked stream to its listener is a blocking send — with it, a stream that arrives while the listener is registered but not yet in Accept() simply waits (fact handoffBlocks, event xAcceptUnparked, witness nonblocking_handoff_witness: a fallback to the default listener serves the brokered stream from the main listener); late-serve scenario (Accept now, Serve 400 ms later). Fifth round: knocksExpire also requires that the dialler's wait for the ack in knock is one select with exactly the ack arm and the timer arm and that nothing else in knock receives from a channel. Sixth round: C08.reaccept — an ID accepted again after its first brokered server was shut down, both roles. Fact listenerReplaces (both muxers' Listener builds and registers a new listener on every call: reaccept_usable, get_or_create_witness); cell C08.id-zero (a caller-chosen ID of 0).",
     "level_note": "Full strength on the model under two stated assumptions: sequential establishment (as the API documents) and knocks acknowledged within their window. The in-progress handshake is one program counter (justified by the dialler's dialMutex and causal order of the messages). gRPC/yamux transport assumed.",
 }
